@@ -49,6 +49,7 @@ package protocol
 //@ ensures err == nil ==> len(f.Payload) <= 16384 && len(result) == 14 + len(f.Payload)
 //@ ensures err == nil ==> result[0] == f.Type && result[1] == f.Flags && be32(result, 2) == len(f.Payload) && be64(result, 6) == f.StreamID
 //@ ensures err == nil ==> forall i in 0..len(f.Payload): result[14 + i] == f.Payload[i]
+//@ ensures len(f.Payload) <= 16384 ==> err == nil
 
 //@ func DecodeHeader
 //@ prop C07 C05
@@ -96,6 +97,20 @@ package protocol
 //@ prop C05
 //@ check bounds alloc
 //@ alloc-limit len(buf) + 4096
+//@ ensures err == nil ==> result != nil && result.RequestID == be64(buf, 0) && result.AddressType == buf[8] && (buf[8] == 1 || buf[8] == 3 || buf[8] == 4)
+//@ ensures err == nil ==> len(result.Address) == ite(buf[8] == 1, 4, ite(buf[8] == 4, 16, 1 + buf[9]))
+//@ after call readBytes assert r.err == nil && buf[8] == 1 ==> forall i in 0..4: $ret[i] == buf[9 + i]
+//@ after call readBytes assert r.err == nil && buf[8] == 4 ==> forall i in 0..16: $ret[i] == buf[9 + i]
+//@ after call readBytes assert r.err == nil && buf[8] == 3 ==> forall i in 0..len($ret): $ret[i] == buf[9 + i]
+//@ ensures err == nil && buf[8] == 1 ==> forall i in 0..4: result.Address[i] == buf[9 + i]
+//@ ensures err == nil && buf[8] == 4 ==> forall i in 0..16: result.Address[i] == buf[9 + i]
+//@ ensures err == nil && buf[8] == 3 ==> forall i in 0..len(result.Address): result.Address[i] == buf[9 + i]
+//@ ensures err == nil ==> result.Port == be16(buf, 9 + len(result.Address)) && result.TTL == buf[11 + len(result.Address)] && len(result.RemainingPath) == buf[12 + len(result.Address)]
+//@ ensures err == nil ==> forall k in 0..len(result.RemainingPath): forall j in 0..16: result.RemainingPath[k][j] == buf[13 + len(result.Address) + 16 * k + j]
+//@ ensures err == nil ==> forall i in 0..32: result.EphemeralPubKey[i] == buf[13 + len(result.Address) + 16 * len(result.RemainingPath) + i]
+//@ ensures buf[8] == 1 && len(buf) >= 49 && len(buf) >= 49 + 16 * buf[16] ==> err == nil
+//@ ensures buf[8] == 4 && len(buf) >= 61 && len(buf) >= 61 + 16 * buf[28] ==> err == nil
+//@ ensures len(buf) >= 46 && buf[8] == 3 && len(buf) >= 46 + buf[9] && len(buf) >= 46 + buf[9] + 16 * buf[13 + buf[9]] ==> err == nil
 
 //@ func DecodeStreamOpenAck
 //@ prop C05
@@ -127,21 +142,28 @@ package protocol
 //@ prop C05
 //@ check bounds alloc
 //@ alloc-limit len(prefix) + 4096
+//@ ensures len(prefix) >= 1 && len(prefix) >= 1 + prefix[0] ==> len(result) == prefix[0] && forall i in 0..len(result): result[i] == prefix[1 + i]
+//@ ensures !(len(prefix) >= 1 && len(prefix) >= 1 + prefix[0]) ==> len(result) == 0
 
 //@ func DecodeForwardKey
 //@ prop C05
 //@ check bounds alloc
 //@ alloc-limit len(prefix) + 4096
+//@ ensures len(prefix) >= 1 && len(prefix) >= 1 + prefix[0] ==> len(result) == prefix[0] && forall i in 0..len(result): result[i] == prefix[1 + i]
+//@ ensures !(len(prefix) >= 1 && len(prefix) >= 1 + prefix[0]) ==> len(result) == 0
 
 //@ func DecodeForwardKeyAndTarget
 //@ prop C05
 //@ check bounds alloc
 //@ alloc-limit len(prefix) + 4096
+//@ ensures len(prefix) >= 1 && len(prefix) >= 1 + prefix[0] ==> len(key) == prefix[0] && forall i in 0..len(key): key[i] == prefix[1 + i]
+//@ ensures len(prefix) >= 1 && len(prefix) >= 2 + prefix[0] && len(prefix) >= 2 + prefix[0] + prefix[1 + prefix[0]] ==> len(target) == prefix[1 + prefix[0]] && forall i in 0..len(target): target[i] == prefix[2 + prefix[0] + i]
 
 //@ func DecodeAgentPrefix
 //@ prop C05
 //@ check bounds alloc
 //@ alloc-limit len(prefix) + 4096
+//@ ensures len(prefix) >= 16 ==> forall j in 0..16: result[j] == prefix[j]
 
 //@ func DecodeRouteAdvertise
 //@ prop C05
@@ -160,6 +182,9 @@ package protocol
 //@ check bounds alloc
 //@ alloc-limit len(buf) + 4096
 //@ ensures err == nil ==> result0 != nil && 3 <= result1 && result1 <= len(buf) && len(result0.Data) == result1 - 3
+//@ ensures len(buf) >= 3 && len(buf) >= 3 + be16(buf, 1) ==> err == nil
+//@ ensures err == nil ==> (result0.Encrypted <==> buf[0] != 0) && len(result0.Data) == be16(buf, 1) && result1 == 3 + be16(buf, 1)
+//@ ensures err == nil ==> forall j in 0..len(result0.Data): result0.Data[j] == buf[3 + j]
 
 //@ func DecodeNodeInfo
 //@ prop C05
@@ -174,6 +199,8 @@ package protocol
 //@ prop C05
 //@ check bounds alloc
 //@ alloc-limit len(buf) + 4096
+//@ ensures len(buf) >= 1 && len(buf) >= 1 + 16 * buf[0] ==> err == nil && len(result) == buf[0]
+//@ ensures err == nil ==> forall k in 0..len(result): forall j in 0..16: result[k][j] == buf[1 + 16 * k + j]
 
 //@ func DecodeNodeInfoAdvertise
 //@ prop C05
@@ -184,61 +211,122 @@ package protocol
 //@ prop C05
 //@ check bounds alloc
 //@ alloc-limit len(buf) + 4096
+//@ after call readUint32 assert r.err == nil ==> r.offset == 30 + 16 * len(c.Path) && r.buf == buf
+//@ after call readBytes assert r.err == nil ==> forall j in 0..len($ret): $ret[j] == buf[30 + 16 * len(c.Path) + j]
+//@ ensures err == nil ==> result != nil && result.RequestID == be64(buf, 0) && result.ControlType == buf[8] && len(result.Path) == buf[25]
+//@ ensures err == nil ==> len(result.Data) == be32(buf, 26 + 16 * len(result.Path))
+//@ ensures err == nil ==> forall j in 0..16: result.TargetAgent[j] == buf[9 + j]
+//@ ensures err == nil ==> forall k in 0..len(result.Path): forall j in 0..16: result.Path[k][j] == buf[26 + 16 * k + j]
+//@ ensures err == nil ==> forall j in 0..len(result.Data): result.Data[j] == buf[30 + 16 * len(result.Path) + j]
+//@ ensures len(buf) >= 30 && len(buf) >= 30 + 16 * buf[25] && len(buf) >= 30 + 16 * buf[25] + be32(buf, 26 + 16 * buf[25]) ==> err == nil
 
 //@ func DecodeControlResponse
 //@ prop C05
 //@ check bounds alloc
 //@ alloc-limit len(buf) + 4096
+//@ ensures len(buf) >= 12 && len(buf) >= 12 + be16(buf, 10) ==> err == nil
+//@ ensures err == nil ==> result != nil && result.RequestID == be64(buf, 0) && result.ControlType == buf[8] && (result.Success <==> buf[9] != 0) && len(result.Data) == be16(buf, 10)
+//@ ensures err == nil ==> forall j in 0..len(result.Data): result.Data[j] == buf[12 + j]
 
 //@ func DecodeUDPOpen
 //@ prop C05
 //@ check bounds alloc
 //@ alloc-limit len(buf) + 4096
+//@ ensures err == nil ==> result != nil && result.RequestID == be64(buf, 0) && result.AddressType == buf[8] && (buf[8] == 1 || buf[8] == 3 || buf[8] == 4)
+//@ ensures err == nil ==> len(result.Address) == ite(buf[8] == 1, 4, ite(buf[8] == 4, 16, 1 + buf[9]))
+//@ after call readBytes assert r.err == nil && buf[8] == 1 ==> forall i in 0..4: $ret[i] == buf[9 + i]
+//@ after call readBytes assert r.err == nil && buf[8] == 4 ==> forall i in 0..16: $ret[i] == buf[9 + i]
+//@ after call readBytes assert r.err == nil && buf[8] == 3 ==> forall i in 0..len($ret): $ret[i] == buf[9 + i]
+//@ ensures err == nil && buf[8] == 1 ==> forall i in 0..4: result.Address[i] == buf[9 + i]
+//@ ensures err == nil && buf[8] == 4 ==> forall i in 0..16: result.Address[i] == buf[9 + i]
+//@ ensures err == nil && buf[8] == 3 ==> forall i in 0..len(result.Address): result.Address[i] == buf[9 + i]
+//@ ensures err == nil ==> result.Port == be16(buf, 9 + len(result.Address)) && result.TTL == buf[11 + len(result.Address)] && len(result.RemainingPath) == buf[12 + len(result.Address)]
+//@ ensures err == nil ==> forall k in 0..len(result.RemainingPath): forall j in 0..16: result.RemainingPath[k][j] == buf[13 + len(result.Address) + 16 * k + j]
+//@ ensures err == nil ==> forall i in 0..32: result.EphemeralPubKey[i] == buf[13 + len(result.Address) + 16 * len(result.RemainingPath) + i]
+//@ ensures buf[8] == 1 && len(buf) >= 49 && len(buf) >= 49 + 16 * buf[16] ==> err == nil
+//@ ensures buf[8] == 4 && len(buf) >= 61 && len(buf) >= 61 + 16 * buf[28] ==> err == nil
+//@ ensures len(buf) >= 46 && buf[8] == 3 && len(buf) >= 46 + buf[9] && len(buf) >= 46 + buf[9] + 16 * buf[13 + buf[9]] ==> err == nil
 
 //@ func DecodeUDPOpenAck
 //@ prop C05
 //@ check bounds alloc
 //@ alloc-limit len(buf) + 4096
+//@ ensures len(buf) >= 44 && len(buf) >= 43 + ite(buf[8] == 1, 4, ite(buf[8] == 4, 16, 0)) ==> err == nil && result != nil && result.RequestID == be64(buf, 0) && result.BoundAddrType == buf[8] && len(result.BoundAddr) == ite(buf[8] == 1, 4, ite(buf[8] == 4, 16, 0)) && result.BoundPort == be16(buf, 9 + len(result.BoundAddr))
+//@ ensures err == nil ==> forall i in 0..len(result.BoundAddr): result.BoundAddr[i] == buf[9 + i]
+//@ ensures err == nil ==> forall i in 0..32: result.EphemeralPubKey[i] == buf[11 + len(result.BoundAddr) + i]
 
 //@ func DecodeUDPOpenErr
 //@ prop C05
 //@ check bounds alloc
 //@ alloc-limit len(buf) + 4096
+//@ ensures len(buf) >= 11 && len(buf) >= 11 + buf[10] ==> err == nil && result != nil && result.RequestID == be64(buf, 0) && result.ErrorCode == be16(buf, 8) && len(result.Message) == buf[10] && forall i in 0..len(result.Message): result.Message[i] == buf[11 + i]
 
 //@ func DecodeUDPDatagram
 //@ prop C05
 //@ check bounds alloc
 //@ alloc-limit len(buf) + 4096
+//@ after call readBytes#0 assert r.err == nil && buf[0] == 1 ==> forall i in 0..4: $ret[i] == buf[1 + i]
+//@ after call readBytes#0 assert r.err == nil && buf[0] == 4 ==> forall i in 0..16: $ret[i] == buf[1 + i]
+//@ after call readBytes#0 assert r.err == nil && buf[0] == 3 ==> forall i in 0..len($ret): $ret[i] == buf[1 + i]
+//@ after call readUint16#1 assert r.err == nil ==> r.offset == 5 + len(u.Address) && r.buf == buf
+//@ after call readBytes#1 assert r.err == nil ==> forall i in 0..len($ret): $ret[i] == buf[5 + len(u.Address) + i]
+//@ ensures err == nil ==> result != nil && result.AddressType == buf[0] && (buf[0] == 1 || buf[0] == 3 || buf[0] == 4)
+//@ ensures err == nil ==> len(result.Address) == ite(buf[0] == 1, 4, ite(buf[0] == 4, 16, 1 + buf[1]))
+//@ ensures err == nil && buf[0] == 1 ==> forall i in 0..4: result.Address[i] == buf[1 + i]
+//@ ensures err == nil && buf[0] == 4 ==> forall i in 0..16: result.Address[i] == buf[1 + i]
+//@ ensures err == nil && buf[0] == 3 ==> forall i in 0..len(result.Address): result.Address[i] == buf[1 + i]
+//@ ensures err == nil ==> result.Port == be16(buf, 1 + len(result.Address)) && len(result.Data) == be16(buf, 3 + len(result.Address))
+//@ ensures err == nil ==> forall i in 0..len(result.Data): result.Data[i] == buf[5 + len(result.Address) + i]
+//@ ensures buf[0] == 1 && len(buf) >= 9 && len(buf) >= 9 + be16(buf, 7) ==> err == nil
+//@ ensures buf[0] == 4 && len(buf) >= 21 && len(buf) >= 21 + be16(buf, 19) ==> err == nil
+//@ ensures len(buf) >= 6 && buf[0] == 3 && len(buf) >= 6 + buf[1] && len(buf) >= 6 + buf[1] + be16(buf, 4 + buf[1]) ==> err == nil
 
 //@ func DecodeUDPClose
 //@ prop C05
 //@ check bounds alloc
 //@ alloc-limit len(buf) + 4096
+//@ ensures len(buf) >= 1 ==> err == nil && result != nil && result.Reason == buf[0]
 
 //@ func DecodeICMPOpen
 //@ prop C05
 //@ check bounds alloc
 //@ alloc-limit len(buf) + 4096
+//@ after call readBytes assert r.err == nil ==> forall j in 0..len($ret): $ret[j] == buf[9 + j]
+//@ ensures err == nil ==> result != nil && result.RequestID == be64(buf, 0) && len(result.DestIP) == buf[8]
+//@ ensures err == nil ==> forall j in 0..len(result.DestIP): result.DestIP[j] == buf[9 + j]
+//@ ensures err == nil ==> result.TTL == buf[9 + len(result.DestIP)] && len(result.RemainingPath) == buf[10 + len(result.DestIP)]
+//@ ensures err == nil ==> forall k in 0..len(result.RemainingPath): forall j in 0..16: result.RemainingPath[k][j] == buf[11 + len(result.DestIP) + 16 * k + j]
+//@ ensures err == nil ==> forall j in 0..32: result.EphemeralPubKey[j] == buf[11 + len(result.DestIP) + 16 * len(result.RemainingPath) + j]
+//@ ensures len(buf) >= 43 && len(buf) >= 43 + buf[8] && len(buf) >= 43 + buf[8] + 16 * buf[10 + buf[8]] ==> err == nil
 
 //@ func DecodeICMPOpenAck
 //@ prop C05
 //@ check bounds alloc
 //@ alloc-limit len(buf) + 4096
+//@ ensures len(buf) >= 40 ==> err == nil && result != nil && result.RequestID == be64(buf, 0)
+//@ ensures err == nil ==> forall j in 0..32: result.EphemeralPubKey[j] == buf[8 + j]
 
 //@ func DecodeICMPOpenErr
 //@ prop C05
 //@ check bounds alloc
 //@ alloc-limit len(buf) + 4096
+//@ ensures len(buf) >= 11 && len(buf) >= 11 + buf[10] ==> err == nil && result != nil && result.RequestID == be64(buf, 0) && result.ErrorCode == be16(buf, 8) && len(result.Message) == buf[10] && forall j in 0..len(result.Message): result.Message[j] == buf[11 + j]
 
 //@ func DecodeICMPEcho
 //@ prop C05
 //@ check bounds alloc
 //@ alloc-limit len(buf) + 4096
+//@ after call readBytes#0 assert r.err == nil ==> forall j in 0..len($ret): $ret[j] == buf[6 + j]
+//@ ensures err == nil ==> result != nil && result.Identifier == be16(buf, 0) && result.Sequence == be16(buf, 2) && (result.IsReply <==> buf[4] != 0)
+//@ ensures err == nil ==> len(result.SrcIP) == buf[5] && len(result.Data) == be16(buf, 6 + buf[5])
+//@ ensures err == nil ==> forall j in 0..len(result.SrcIP): result.SrcIP[j] == buf[6 + j]
+//@ ensures len(buf) >= 8 && len(buf) >= 8 + buf[5] && len(buf) >= 8 + buf[5] + be16(buf, 6 + buf[5]) ==> err == nil
 
 //@ func DecodeICMPClose
 //@ prop C05
 //@ check bounds alloc
 //@ alloc-limit len(buf) + 4096
+//@ ensures len(buf) >= 1 ==> err == nil && result != nil && result.Reason == buf[0]
 
 //@ func DecodeSleepCommand
 //@ prop C05
@@ -388,6 +476,7 @@ package protocol
 //@ prop C05
 //@ ensures err == nil ==> (addrType == AddrTypeIPv4 && result == 4) || (addrType == AddrTypeIPv6 && result == 16) || (addrType == AddrTypeDomain && result == 1 + domainLenByte)
 //@ ensures err == nil ==> result >= 1 && result <= 256
+//@ ensures addrType == 1 || addrType == 3 || addrType == 4 ==> err == nil
 
 //@ func prefixLength
 //@ prop C05
@@ -481,6 +570,12 @@ package protocol
 //@ prop C05
 //@ check bounds
 //@ requires len(s.RemainingPath) <= 255
+//@ ensures len(result) == 45 + len(s.Address) + 16 * len(s.RemainingPath) && be64(result, 0) == s.RequestID && result[8] == s.AddressType
+//@ ensures be16(result, 9 + len(s.Address)) == s.Port && result[11 + len(s.Address)] == s.TTL && result[12 + len(s.Address)] == len(s.RemainingPath)
+//@ ensures forall i in 0..len(s.Address): result[9 + i] == s.Address[i]
+//@ ensures len(s.Address) >= 1 ==> result[9] == s.Address[0]
+//@ ensures forall k in 0..len(s.RemainingPath): forall j in 0..16: result[13 + len(s.Address) + 16 * k + j] == s.RemainingPath[k][j]
+//@ ensures forall i in 0..32: result[13 + len(s.Address) + 16 * len(s.RemainingPath) + i] == s.EphemeralPubKey[i]
 
 //@ func (*StreamOpenAck).Encode
 //@ prop C05
@@ -512,52 +607,89 @@ package protocol
 //@ prop C05
 //@ check bounds
 //@ requires len(c.Path) <= 255
+//@ ensures len(result) == 30 + 16 * len(c.Path) + len(c.Data) && be64(result, 0) == c.RequestID && result[8] == c.ControlType && result[25] == len(c.Path)
+//@ ensures len(c.Data) <= 4294967295 ==> be32(result, 26 + 16 * len(c.Path)) == len(c.Data)
+//@ ensures forall j in 0..16: result[9 + j] == c.TargetAgent[j]
+//@ ensures forall k in 0..len(c.Path): forall j in 0..16: result[26 + 16 * k + j] == c.Path[k][j]
+//@ ensures len(c.Path) == 0 ==> forall j in 0..len(c.Data): result[30 + j] == c.Data[j]
 
 //@ func (*ControlResponse).Encode
 //@ prop C05
 //@ check bounds
+//@ ensures len(c.Data) <= 16372 ==> len(result) == 12 + len(c.Data) && be64(result, 0) == c.RequestID && result[8] == c.ControlType && result[9] == ite(c.Success, 1, 0) && be16(result, 10) == len(c.Data)
+//@ ensures len(c.Data) <= 16372 ==> forall j in 0..len(c.Data): result[12 + j] == c.Data[j]
 
 //@ func (*UDPOpen).Encode
 //@ prop C05
 //@ check bounds
 //@ requires len(u.RemainingPath) <= 255
+//@ ensures len(result) == 45 + len(u.Address) + 16 * len(u.RemainingPath) && be64(result, 0) == u.RequestID && result[8] == u.AddressType
+//@ ensures be16(result, 9 + len(u.Address)) == u.Port && result[11 + len(u.Address)] == u.TTL && result[12 + len(u.Address)] == len(u.RemainingPath)
+//@ ensures forall i in 0..len(u.Address): result[9 + i] == u.Address[i]
+//@ ensures len(u.Address) >= 1 ==> result[9] == u.Address[0]
+//@ ensures forall k in 0..len(u.RemainingPath): forall j in 0..16: result[13 + len(u.Address) + 16 * k + j] == u.RemainingPath[k][j]
+//@ ensures forall i in 0..32: result[13 + len(u.Address) + 16 * len(u.RemainingPath) + i] == u.EphemeralPubKey[i]
 
 //@ func (*UDPOpenAck).Encode
 //@ prop C05
 //@ check bounds
+//@ ensures len(result) == 43 + len(u.BoundAddr) && be64(result, 0) == u.RequestID && result[8] == u.BoundAddrType && be16(result, 9 + len(u.BoundAddr)) == u.BoundPort
+//@ ensures forall i in 0..len(u.BoundAddr): result[9 + i] == u.BoundAddr[i]
+//@ ensures forall i in 0..32: result[11 + len(u.BoundAddr) + i] == u.EphemeralPubKey[i]
 
 //@ func (*UDPOpenErr).Encode
 //@ prop C05
 //@ check bounds
+//@ ensures len(u.Message) <= 255 ==> len(result) == 11 + len(u.Message) && be64(result, 0) == u.RequestID && be16(result, 8) == u.ErrorCode && result[10] == len(u.Message) && forall i in 0..len(u.Message): result[11 + i] == u.Message[i]
 
 //@ func (*UDPDatagram).Encode
 //@ prop C05
 //@ check bounds
+//@ ensures len(result) == 5 + len(u.Address) + len(u.Data) && result[0] == u.AddressType && be16(result, 1 + len(u.Address)) == u.Port
+//@ ensures len(u.Data) <= 65535 ==> be16(result, 3 + len(u.Address)) == len(u.Data)
+//@ ensures forall i in 0..len(u.Address): result[1 + i] == u.Address[i]
+//@ ensures len(u.Address) >= 1 ==> result[1] == u.Address[0]
+//@ ensures forall i in 0..len(u.Data): result[5 + len(u.Address) + i] == u.Data[i]
 
 //@ func (*UDPClose).Encode
 //@ prop C05
 //@ check bounds
+//@ ensures len(result) == 1 && result[0] == u.Reason
 
 //@ func (*ICMPOpen).Encode
 //@ prop C05
 //@ check bounds
 //@ requires len(i.RemainingPath) <= 255
+//@ ensures len(result) == 43 + len(i.DestIP) + 16 * len(i.RemainingPath) && be64(result, 0) == i.RequestID
+//@ ensures len(i.DestIP) <= 255 ==> result[8] == len(i.DestIP)
+//@ ensures result[9 + len(i.DestIP)] == i.TTL && result[10 + len(i.DestIP)] == len(i.RemainingPath)
+//@ ensures forall j in 0..len(i.DestIP): result[9 + j] == i.DestIP[j]
+//@ ensures forall k in 0..len(i.RemainingPath): forall j in 0..16: result[11 + len(i.DestIP) + 16 * k + j] == i.RemainingPath[k][j]
+//@ ensures forall j in 0..32: result[11 + len(i.DestIP) + 16 * len(i.RemainingPath) + j] == i.EphemeralPubKey[j]
 
 //@ func (*ICMPOpenAck).Encode
 //@ prop C05
 //@ check bounds
+//@ ensures len(result) == 40 && be64(result, 0) == i.RequestID
+//@ ensures forall j in 0..32: result[8 + j] == i.EphemeralPubKey[j]
 
 //@ func (*ICMPOpenErr).Encode
 //@ prop C05
 //@ check bounds
+//@ ensures len(i.Message) <= 255 ==> len(result) == 11 + len(i.Message) && be64(result, 0) == i.RequestID && be16(result, 8) == i.ErrorCode && result[10] == len(i.Message) && forall j in 0..len(i.Message): result[11 + j] == i.Message[j]
 
 //@ func (*ICMPEcho).Encode
 //@ prop C05
 //@ check bounds
+//@ ensures len(result) == 8 + len(i.SrcIP) + len(i.Data) && be16(result, 0) == i.Identifier && be16(result, 2) == i.Sequence && result[4] == ite(i.IsReply, 1, 0)
+//@ ensures len(i.SrcIP) <= 255 ==> result[5] == len(i.SrcIP)
+//@ ensures len(i.Data) <= 65535 ==> be16(result, 6 + len(i.SrcIP)) == len(i.Data)
+//@ ensures forall j in 0..len(i.SrcIP): result[6 + j] == i.SrcIP[j]
 
 //@ func (*ICMPClose).Encode
 //@ prop C05
 //@ check bounds
+//@ ensures len(result) == 1 && result[0] == i.Reason
 
 //@ func (*SleepCommand).Encode
 //@ prop C05
@@ -580,27 +712,40 @@ package protocol
 //@ func EncodeDomainPrefix
 //@ prop C05
 //@ check bounds
+//@ ensures len(result) == 1 + len(pattern) && (len(pattern) <= 255 ==> result[0] == len(pattern))
+//@ ensures forall i in 0..len(pattern): result[1 + i] == pattern[i]
 
 //@ func EncodeForwardKey
 //@ prop C05
 //@ check bounds
+//@ ensures len(result) == 1 + len(key) && (len(key) <= 255 ==> result[0] == len(key))
+//@ ensures forall i in 0..len(key): result[1 + i] == key[i]
 
 //@ func EncodeForwardKeyWithTarget
 //@ prop C05
 //@ check bounds
+//@ ensures len(result) == 2 + len(key) + len(target) && (len(key) <= 255 ==> result[0] == len(key)) && (len(target) <= 255 ==> result[1 + len(key)] == len(target))
+//@ ensures forall i in 0..len(key): result[1 + i] == key[i]
+//@ ensures forall i in 0..len(target): result[2 + len(key) + i] == target[i]
 
 //@ func EncodeAgentPrefix
 //@ prop C05
 //@ check bounds
+//@ ensures len(result) == 16 && forall j in 0..16: result[j] == agentID[j]
 
 //@ func EncodeEncryptedData
 //@ prop C05
 //@ check bounds
+//@ ensures len(result) == 3 + len(e.Data) && result[0] == ite(e.Encrypted, 1, 0)
+//@ ensures len(e.Data) <= 65535 ==> be16(result, 1) == len(e.Data)
+//@ ensures forall j in 0..len(e.Data): result[3 + j] == e.Data[j]
 
 //@ func EncodePath
 //@ prop C05
 //@ check bounds
 //@ requires len(path) <= 255
+//@ ensures len(result) == 1 + 16 * len(path) && result[0] == len(path)
+//@ ensures forall k in 0..len(path): forall j in 0..16: result[1 + 16 * k + j] == path[k][j]
 
 // ---- C05: round trips (lemmas over the encoder and decoder contracts; zz_verif_lemmas.go) ----
 
@@ -643,3 +788,256 @@ package protocol
 //@ ensures forall i in 0..16: result.OriginAgent[i] == w.OriginAgent[i]
 //@ ensures forall i in 0..64: result.Signature[i] == w.Signature[i]
 //@ ensures forall k in 0..len(w.SeenBy): forall j in 0..16: result.SeenBy[k][j] == w.SeenBy[k][j]
+
+//@ func zzRoundTripStreamOpen
+//@ prop C05
+//@ requires s != nil && len(s.RemainingPath) <= 255 && ((s.AddressType == 1 && len(s.Address) == 4) || (s.AddressType == 4 && len(s.Address) == 16) || (s.AddressType == 3 && len(s.Address) >= 1 && len(s.Address) == 1 + s.Address[0]))
+//@ after call DecodeStreamOpen assert $ret1 == nil && len($ret0.Address) == len(s.Address)
+//@ ensures err == nil
+//@ ensures result.RequestID == s.RequestID && result.AddressType == s.AddressType
+//@ ensures len(result.Address) == len(s.Address)
+//@ ensures result.Port == s.Port && result.TTL == s.TTL
+//@ ensures len(result.RemainingPath) == len(s.RemainingPath)
+//@ ensures s.AddressType == 1 ==> forall i in 0..4: result.Address[i] == s.Address[i]
+//@ ensures s.AddressType == 4 ==> forall i in 0..16: result.Address[i] == s.Address[i]
+//@ ensures s.AddressType == 3 ==> forall i in 0..len(s.Address): result.Address[i] == s.Address[i]
+//@ ensures forall k in 0..len(s.RemainingPath): forall j in 0..16: result.RemainingPath[k][j] == s.RemainingPath[k][j]
+//@ ensures forall i in 0..32: result.EphemeralPubKey[i] == s.EphemeralPubKey[i]
+
+//@ func zzRoundTripUDPOpen
+//@ prop C05
+//@ requires u != nil && len(u.RemainingPath) <= 255 && ((u.AddressType == 1 && len(u.Address) == 4) || (u.AddressType == 4 && len(u.Address) == 16) || (u.AddressType == 3 && len(u.Address) >= 1 && len(u.Address) == 1 + u.Address[0]))
+//@ after call DecodeUDPOpen assert $ret1 == nil && len($ret0.Address) == len(u.Address)
+//@ ensures err == nil
+//@ ensures result.RequestID == u.RequestID && result.AddressType == u.AddressType
+//@ ensures len(result.Address) == len(u.Address)
+//@ ensures result.Port == u.Port && result.TTL == u.TTL
+//@ ensures len(result.RemainingPath) == len(u.RemainingPath)
+//@ ensures u.AddressType == 1 ==> forall i in 0..4: result.Address[i] == u.Address[i]
+//@ ensures u.AddressType == 4 ==> forall i in 0..16: result.Address[i] == u.Address[i]
+//@ ensures u.AddressType == 3 ==> forall i in 0..len(u.Address): result.Address[i] == u.Address[i]
+//@ ensures forall k in 0..len(u.RemainingPath): forall j in 0..16: result.RemainingPath[k][j] == u.RemainingPath[k][j]
+//@ ensures forall i in 0..32: result.EphemeralPubKey[i] == u.EphemeralPubKey[i]
+
+//@ func zzRoundTripUDPOpenAck
+//@ prop C05
+//@ requires u != nil && ((u.BoundAddrType == 1 && len(u.BoundAddr) == 4) || (u.BoundAddrType == 4 && len(u.BoundAddr) == 16))
+//@ ensures err == nil && result.RequestID == u.RequestID && result.BoundAddrType == u.BoundAddrType && result.BoundPort == u.BoundPort && len(result.BoundAddr) == len(u.BoundAddr)
+//@ ensures forall i in 0..len(u.BoundAddr): result.BoundAddr[i] == u.BoundAddr[i]
+//@ ensures forall i in 0..32: result.EphemeralPubKey[i] == u.EphemeralPubKey[i]
+
+//@ func zzRoundTripUDPOpenErr
+//@ prop C05
+//@ requires u != nil && len(u.Message) <= 255
+//@ ensures err == nil
+//@ ensures result.RequestID == u.RequestID
+//@ ensures result.ErrorCode == u.ErrorCode
+//@ ensures len(result.Message) == len(u.Message)
+//@ ensures forall i in 0..len(u.Message): result.Message[i] == u.Message[i]
+
+//@ func zzRoundTripUDPDatagram
+//@ prop C05
+//@ requires u != nil && len(u.Data) <= 65535 && ((u.AddressType == 1 && len(u.Address) == 4) || (u.AddressType == 4 && len(u.Address) == 16) || (u.AddressType == 3 && len(u.Address) >= 1 && len(u.Address) == 1 + u.Address[0]))
+//@ after call DecodeUDPDatagram assert $ret1 == nil && len($ret0.Address) == len(u.Address)
+//@ ensures err == nil
+//@ ensures result.AddressType == u.AddressType && result.Port == u.Port
+//@ ensures len(result.Address) == len(u.Address) && len(result.Data) == len(u.Data)
+//@ ensures u.AddressType == 1 ==> forall i in 0..4: result.Address[i] == u.Address[i]
+//@ ensures u.AddressType == 4 ==> forall i in 0..16: result.Address[i] == u.Address[i]
+//@ note the Address bytes of a domain address and the Data bytes: zzRoundTripUDPDatagramAddr, zzRoundTripUDPDatagramData below
+
+// Views. A variable-length byte field that sits behind another variable-length field has a symbolic wire
+// offset, and the solvers are unreliable on chains of index-shifted quantifiers over such offsets when the
+// whole encoder and decoder contracts are in scope. For those fields the round trip is stated over one-line
+// forwarding wrappers (zzEncX.. returns x.Encode(), zzDecX.. returns DecodeX(buf)) whose contracts carry only
+// the facts of that field; zzRoundTripX.. composes the two wrappers. Wrappers marked inlinecall are proved
+// on the real encoder/decoder and helper bodies (not on their contracts) and state the bytes in string view:
+// str(b)[j] is the j-th byte of b, str(b[k:])[j] is b[k+j].
+
+//@ func zzEncUDPDatagramData
+//@ prop C05
+//@ ensures len(result) == 5 + len(u.Address) + len(u.Data) && result[0] == u.AddressType
+//@ ensures len(u.Address) >= 1 ==> result[1] == u.Address[0]
+//@ ensures len(u.Data) <= 65535 ==> be16(result, 3 + len(u.Address)) == len(u.Data)
+//@ ensures forall i in 0..len(u.Data): result[5 + len(u.Address) + i] == u.Data[i]
+
+//@ func zzDecUDPDatagramData
+//@ prop C05
+//@ ensures err == nil ==> result != nil && len(result.Address) == ite(buf[0] == 1, 4, ite(buf[0] == 4, 16, 1 + buf[1]))
+//@ ensures err == nil ==> len(result.Data) == be16(buf, 3 + len(result.Address))
+//@ ensures err == nil ==> forall i in 0..len(result.Data): result.Data[i] == buf[5 + len(result.Address) + i]
+//@ ensures buf[0] == 1 && len(buf) >= 9 && len(buf) >= 9 + be16(buf, 7) ==> err == nil
+//@ ensures buf[0] == 4 && len(buf) >= 21 && len(buf) >= 21 + be16(buf, 19) ==> err == nil
+//@ ensures len(buf) >= 6 && buf[0] == 3 && len(buf) >= 6 + buf[1] && len(buf) >= 6 + buf[1] + be16(buf, 4 + buf[1]) ==> err == nil
+
+//@ func zzRoundTripUDPDatagramData
+//@ prop C05
+//@ requires u != nil && len(u.Data) <= 65535 && ((u.AddressType == 1 && len(u.Address) == 4) || (u.AddressType == 4 && len(u.Address) == 16) || (u.AddressType == 3 && len(u.Address) >= 1 && len(u.Address) == 1 + u.Address[0]))
+//@ ensures err == nil && len(result.Data) == len(u.Data)
+//@ ensures forall i in 0..len(u.Data): result.Data[i] == u.Data[i]
+
+//@ func zzRoundTripUDPClose
+//@ prop C05
+//@ ensures err == nil && result.Reason == u.Reason
+
+//@ func zzRoundTripICMPClose
+//@ prop C05
+//@ ensures err == nil && result.Reason == i.Reason
+
+//@ func zzRoundTripICMPOpenAck
+//@ prop C05
+//@ requires i != nil
+//@ ensures err == nil && result.RequestID == i.RequestID
+//@ ensures forall j in 0..32: result.EphemeralPubKey[j] == i.EphemeralPubKey[j]
+
+//@ func zzRoundTripICMPOpenErr
+//@ prop C05
+//@ requires i != nil && len(i.Message) <= 255
+//@ ensures err == nil
+//@ ensures result.RequestID == i.RequestID
+//@ ensures result.ErrorCode == i.ErrorCode
+//@ ensures len(result.Message) == len(i.Message)
+//@ ensures forall j in 0..len(i.Message): result.Message[j] == i.Message[j]
+
+//@ func zzRoundTripICMPOpen
+//@ prop C05
+//@ requires i != nil && len(i.DestIP) <= 255 && len(i.RemainingPath) <= 255
+//@ after call DecodeICMPOpen assert $ret1 == nil && len($ret0.DestIP) == len(i.DestIP)
+//@ ensures err == nil
+//@ ensures result.RequestID == i.RequestID && len(result.DestIP) == len(i.DestIP)
+//@ ensures result.TTL == i.TTL && len(result.RemainingPath) == len(i.RemainingPath)
+//@ ensures forall j in 0..len(i.DestIP): result.DestIP[j] == i.DestIP[j]
+//@ ensures forall k in 0..len(i.RemainingPath): forall j in 0..16: result.RemainingPath[k][j] == i.RemainingPath[k][j]
+//@ ensures forall j in 0..32: result.EphemeralPubKey[j] == i.EphemeralPubKey[j]
+
+//@ func zzRoundTripICMPEcho
+//@ prop C05
+//@ requires i != nil && len(i.SrcIP) <= 255 && len(i.Data) <= 65535
+//@ after call DecodeICMPEcho assert $ret1 == nil && len($ret0.SrcIP) == len(i.SrcIP) && len($ret0.Data) == len(i.Data)
+//@ ensures err == nil
+//@ ensures result.Identifier == i.Identifier && result.Sequence == i.Sequence && (result.IsReply <==> i.IsReply)
+//@ ensures len(result.SrcIP) == len(i.SrcIP) && len(result.Data) == len(i.Data)
+//@ note the SrcIP and Data bytes: zzRoundTripICMPEchoData below (str(b)[j] is the j-th byte of b)
+
+//@ func zzRoundTripControlRequest
+//@ prop C05
+//@ requires c != nil && len(c.Path) <= 255 && len(c.Data) <= 4294967295
+//@ after call DecodeControlRequest assert $ret1 == nil && len($ret0.Path) == len(c.Path)
+//@ ensures err == nil
+//@ ensures result.RequestID == c.RequestID && result.ControlType == c.ControlType
+//@ ensures len(result.Path) == len(c.Path) && len(result.Data) == len(c.Data)
+//@ ensures forall j in 0..16: result.TargetAgent[j] == c.TargetAgent[j]
+//@ ensures forall k in 0..len(c.Path): forall j in 0..16: result.Path[k][j] == c.Path[k][j]
+//@ ensures len(c.Path) == 0 ==> forall j in 0..len(c.Data): result.Data[j] == c.Data[j]
+//@ note the Data bytes for any path length: zzRoundTripControlRequestData below
+
+//@ func zzEncControlRequestData
+//@ prop C05
+//@ requires c != nil && len(c.Path) <= 255
+//@ inlinecall (*ControlRequest).Encode writeUint64 writeUint8 writeUint32 writeBytes bytes
+//@ ensures len(result) == 30 + 16 * len(c.Path) + len(c.Data) && result[25] == len(c.Path)
+//@ ensures len(c.Data) <= 4294967295 ==> be32(result, 26 + 16 * len(c.Path)) == len(c.Data)
+//@ ensures forall j in 0..len(c.Data): result[30 + 16 * len(c.Path) + j] == c.Data[j]
+
+//@ func zzRoundTripControlRequestData
+//@ prop C05
+//@ requires c != nil && len(c.Path) <= 255 && len(c.Data) <= 4294967295
+//@ after call DecodeControlRequest assert $ret1 == nil && len($ret0.Path) == len(c.Path)
+//@ ensures err == nil && len(result.Data) == len(c.Data)
+//@ ensures forall j in 0..len(c.Data): result.Data[j] == c.Data[j]
+
+//@ func zzRoundTripControlResponse
+//@ prop C05
+//@ requires c != nil && len(c.Data) <= 16372
+//@ ensures err == nil
+//@ ensures result.RequestID == c.RequestID && result.ControlType == c.ControlType && (result.Success <==> c.Success)
+//@ ensures len(result.Data) == len(c.Data)
+//@ ensures forall j in 0..len(c.Data): result.Data[j] == c.Data[j]
+
+//@ func zzRoundTripPath
+//@ prop C05
+//@ requires len(path) <= 255
+//@ ensures err == nil && len(result) == len(path)
+//@ ensures forall k in 0..len(path): forall j in 0..16: result[k][j] == path[k][j]
+
+//@ func zzRoundTripEncryptedData
+//@ prop C05
+//@ requires e != nil && len(e.Data) <= 65535
+//@ ensures err == nil && result0 != nil && result1 == 3 + len(e.Data)
+//@ ensures (result0.Encrypted <==> e.Encrypted) && len(result0.Data) == len(e.Data)
+//@ ensures forall j in 0..len(e.Data): result0.Data[j] == e.Data[j]
+
+//@ func zzRoundTripDomainPrefix
+//@ prop C05
+//@ requires len(pattern) <= 255
+//@ ensures len(result) == len(pattern)
+//@ ensures forall i in 0..len(pattern): result[i] == pattern[i]
+
+//@ func zzRoundTripForwardKey
+//@ prop C05
+//@ requires len(key) <= 255
+//@ ensures len(result) == len(key)
+//@ ensures forall i in 0..len(key): result[i] == key[i]
+
+//@ func zzRoundTripForwardKeyWithTarget
+//@ prop C05
+//@ requires len(key) <= 255 && len(target) <= 255
+//@ ensures len(k2) == len(key) && len(t2) == len(target)
+//@ ensures forall i in 0..len(key): k2[i] == key[i]
+//@ ensures forall i in 0..len(target): t2[i] == target[i]
+
+//@ func zzRoundTripAgentPrefix
+//@ prop C05
+//@ ensures forall j in 0..16: result[j] == agentID[j]
+
+//@ func zzRoundTripFrame
+//@ prop C05
+//@ requires f != nil && len(f.Payload) <= 16384
+//@ ensures err == nil && result != nil
+//@ ensures result.Type == f.Type && result.Flags == f.Flags && result.StreamID == f.StreamID && len(result.Payload) == len(f.Payload)
+//@ ensures forall i in 0..len(f.Payload): result.Payload[i] == f.Payload[i]
+
+//@ func zzEncUDPDatagramAddr
+//@ prop C05
+//@ inlinecall (*UDPDatagram).Encode writeUint8 writeUint16 writeBytes bytes
+//@ ensures len(result) == 5 + len(u.Address) + len(u.Data) && result[0] == u.AddressType
+//@ ensures len(u.Address) >= 1 ==> result[1] == u.Address[0]
+//@ ensures len(u.Data) <= 65535 ==> be16(result, 3 + len(u.Address)) == len(u.Data)
+//@ ensures forall i in 0..len(u.Address): str(result[1:])[i] == str(u.Address)[i]
+
+//@ func zzDecUDPDatagramAddr
+//@ prop C05
+//@ inlinecall DecodeUDPDatagram readUint8 readUint16 readBytes
+//@ ensures err == nil ==> result != nil && len(result.Address) == ite(buf[0] == 1, 4, ite(buf[0] == 4, 16, 1 + buf[1]))
+//@ ensures err == nil && buf[0] == 3 ==> forall i in 0..len(result.Address): str(result.Address)[i] == str(buf[1:])[i]
+//@ ensures len(buf) >= 6 && buf[0] == 3 && len(buf) >= 6 + buf[1] && len(buf) >= 6 + buf[1] + be16(buf, 4 + buf[1]) ==> err == nil
+
+//@ func zzRoundTripUDPDatagramAddr
+//@ prop C05
+//@ requires u != nil && len(u.Data) <= 65535 && u.AddressType == 3 && len(u.Address) >= 1 && len(u.Address) == 1 + u.Address[0]
+//@ ensures err == nil && len(result.Address) == len(u.Address)
+//@ ensures forall i in 0..len(u.Address): str(result.Address)[i] == str(u.Address)[i]
+
+//@ func zzEncICMPEchoData
+//@ prop C05
+//@ inlinecall (*ICMPEcho).Encode writeUint16 writeBool writeUint8 writeBytes bytes
+//@ ensures len(result) == 8 + len(i.SrcIP) + len(i.Data)
+//@ ensures len(i.SrcIP) <= 255 ==> result[5] == len(i.SrcIP)
+//@ ensures len(i.Data) <= 65535 ==> be16(result, 6 + len(i.SrcIP)) == len(i.Data)
+//@ ensures forall j in 0..len(i.SrcIP): str(result[6:])[j] == str(i.SrcIP)[j]
+//@ ensures forall j in 0..len(i.Data): str(result[8 + len(i.SrcIP):])[j] == str(i.Data)[j]
+
+//@ func zzDecICMPEchoData
+//@ prop C05
+//@ inlinecall DecodeICMPEcho readUint16 readBool readUint8 readBytes
+//@ ensures err == nil ==> result != nil && len(result.SrcIP) == buf[5] && len(result.Data) == be16(buf, 6 + buf[5])
+//@ ensures err == nil ==> forall j in 0..len(result.SrcIP): str(result.SrcIP)[j] == str(buf[6:])[j]
+//@ ensures err == nil ==> forall j in 0..len(result.Data): str(result.Data)[j] == str(buf[8 + buf[5]:])[j]
+//@ ensures len(buf) >= 8 && len(buf) >= 8 + buf[5] && len(buf) >= 8 + buf[5] + be16(buf, 6 + buf[5]) ==> err == nil
+
+//@ func zzRoundTripICMPEchoData
+//@ prop C05
+//@ requires i != nil && len(i.SrcIP) <= 255 && len(i.Data) <= 65535
+//@ ensures err == nil && len(result.SrcIP) == len(i.SrcIP) && len(result.Data) == len(i.Data)
+//@ ensures forall j in 0..len(i.SrcIP): str(result.SrcIP)[j] == str(i.SrcIP)[j]
+//@ ensures forall j in 0..len(i.Data): str(result.Data)[j] == str(i.Data)[j]
